@@ -176,7 +176,7 @@ fn gen(seed: u64, idx: u64, t: Tier) -> J {
 		format!("{c}{tail}").into_bytes()
 	} else if fam < 73 {
 		family = "ambiguous";
-		(*r.pick(&["[a]\n", "{}", "[]", "[a]\nb = 1\n", "a = 1\n", "a: 1\n", "[1, 2]\n", "{\"a\": 1}", "[[a]]\n", "a = \"x: y\"\n", "[a.b]\n", "---\n- 1\n", "1", "\"s\"", "null", "# c\n[a]\n", "a:\n  b = 1\n", "{a: 1}\n"])).as_bytes().to_vec()
+		(*r.pick(&["[a]\n", "{}", "[]", "[a]\nb = 1\n", "a = 1\n", "a: 1\n", "[1, 2]\n", "{\"a\": 1}", "[[a]]\n", "a = \"x: y\"\n", "[a.b]\n", "---\n- 1\n", "1", "\"s\"", "null", "# c\n[a]\n", "a:\n  b = 1\n", "{a: 1}\n", "[a]\n--- = \"\u{81}\"\n", "[a]\n--- = 1\n"])).as_bytes().to_vec()
 	} else if fam < 83 {
 		family = "utf16_32";
 		let mut cfg = GenCfg::common();
